@@ -20,6 +20,7 @@ import contextlib
 import os
 import posixpath
 import sys
+from io import BytesIO
 
 from dromedary.errors import (
     FileExists,
@@ -36,7 +37,7 @@ from dulwich.object_store import (
     PackBasedObjectStore,
     read_packs_file,
 )
-from dulwich.objects import ShaFile
+from dulwich.objects import ZERO_SHA, ShaFile
 from dulwich.pack import (
     Pack,
     PackData,
@@ -345,8 +346,6 @@ class TransportRefsContainer(RefsContainer):
                 return header + f.read(40 - len(SYMREF))
 
     def _remove_packed_ref(self, name):
-        if self._packed_refs is None:
-            return
         # reread cached refs from disk, while holding the lock
 
         self._packed_refs = None
@@ -358,8 +357,12 @@ class TransportRefsContainer(RefsContainer):
         del self._packed_refs[name]
         if name in self._peeled_refs:
             del self._peeled_refs[name]
-        with self.transport.open_write_stream("packed-refs") as f:
-            write_packed_refs(f, self._packed_refs, self._peeled_refs)
+        # Replace the file in one step (put_bytes renames a temporary file into
+        # place); rewriting it in place lets a concurrent reader see an empty
+        # or truncated packed-refs file.
+        f = BytesIO()
+        write_packed_refs(f, self._packed_refs, self._peeled_refs)
+        self.transport.put_bytes("packed-refs", f.getvalue())
 
     def set_symbolic_ref(self, name, other):
         """Make a ref point at another ref.
@@ -398,6 +401,16 @@ class TransportRefsContainer(RefsContainer):
             transport = self.worktree_transport
         else:
             transport = self.transport
+        if old_ref is not None:
+            # Re-read the value from disk rather than trusting the cached
+            # packed refs, which another process may have rewritten.
+            orig_ref = self.read_loose_ref(realname)
+            if orig_ref is None:
+                self._packed_refs = None
+                orig_ref = self.get_packed_refs().get(realname, ZERO_SHA)
+            if orig_ref != old_ref:
+                return False
+        if realname != b"HEAD":
             self._ensure_dir_exists(urlutils.quote_from_bytes(realname))
         transport.put_bytes(urlutils.quote_from_bytes(realname), new_ref + b"\n")
         return True
@@ -442,6 +455,13 @@ class TransportRefsContainer(RefsContainer):
         self._check_refname(name)
         # may only be packed
         transport = self.worktree_transport if name == b"HEAD" else self.transport
+        if old_ref is not None:
+            orig_ref = self.read_loose_ref(name)
+            if orig_ref is None:
+                self._packed_refs = None
+                orig_ref = self.get_packed_refs().get(name, ZERO_SHA)
+            if orig_ref != old_ref:
+                return False
         with contextlib.suppress(NoSuchFile):
             transport.delete(urlutils.quote_from_bytes(name))
         self._remove_packed_ref(name)
